@@ -32,13 +32,16 @@ AddsTwcc(s) == Has("twcchdr") /\ Fn(lcfg, s, [twcc |-> 0]).twcc # 0
 SameBut(p, q) ==       \* every header field and the payload identical, extensions aside
   /\ p.p = q.p /\ p.ps = q.ps /\ p.m = q.m /\ p.pt = q.pt /\ p.seq = q.seq /\ p.ts = q.ts
   /\ p.ssrc = q.ssrc /\ p.csrc = q.csrc /\ p.pl = q.pl
+\* (the harness marks a packet "stale" when it reached the transport-side writer of an EARLIER binding of the stream: after
+\* Unbind + Bind the application's packets must reach the writer the chain was given at the LATEST BindLocalStream)
 WireOk(s, sent, got) ==
-  IF AddsTwcc(s)
-  THEN /\ SameBut(sent, got) /\ got.x
-       /\ \E v \in {e \in ExtSet(got) : e[1] = lcfg[s].twcc} :
-            /\ Len(v[2]) = 2
-            /\ ExtSet(got) \ {v} = {e \in ExtSet(sent) : e[1] # lcfg[s].twcc}
-  ELSE got = sent
+  /\ "stale" \notin DOMAIN got
+  /\ IF AddsTwcc(s)
+     THEN /\ SameBut(sent, got) /\ got.x
+          /\ \E v \in {e \in ExtSet(got) : e[1] = lcfg[s].twcc} :
+               /\ Len(v[2]) = 2
+               /\ ExtSet(got) \ {v} = {e \in ExtSet(sent) : e[1] # lcfg[s].twcc}
+     ELSE got = sent
 
 \* ---- injected feedback must be explainable by successful reads only ----------------------------------
 SumOk(x) ==
